@@ -8,7 +8,7 @@ use crate::adapter::{BinOp, Fam};
 use crate::engine::Verdict;
 use crate::model::{words_for, Tt};
 use crate::ops::{History, Op, Step, SLOTS};
-use crate::props::{c02, c09, c10, c12, c14, c16};
+use crate::props::{c02, c03, c04, c05, c06, c07, c09, c10, c12, c14, c16};
 use crate::sopx::{CB, SB};
 
 type R<T> = arbitrary::Result<T>;
@@ -34,7 +34,7 @@ fn idx(u: &mut Unstructured, n: usize) -> R<usize> {
 
 fn op(u: &mut Unstructured, n: usize, f: Fam) -> R<Op> {
     let size = 1usize << n;
-    let tag = u.int_in_range(0u8..=48)?;
+    let tag = u.int_in_range(0u8..=49)?;
     let k_arg = |u: &mut Unstructured| -> R<usize> {
         Ok(match u.int_in_range(0u8..=5)? {
             0 => 63,
@@ -130,6 +130,7 @@ fn op(u: &mut Unstructured, n: usize, f: Fam) -> R<Op> {
         45 => needs_var(Op::TopDecomp(idx(u, n)?)),
         46 => Op::Rel,
         48 => Op::ConvertTo(u.int_in_range(0usize..=12)?),
+        49 => Op::Format(u.int_in_range(0usize..=9)?),
         _ => Op::Binary,
     })
 }
@@ -256,6 +257,120 @@ pub fn decode_sop(data: &[u8]) -> Option<c14::Case> {
     r.ok()
 }
 
+/// a table described by a small expression: raw words, repeated word, literals, and / or / xor /
+/// not / mux of sub-tables, or a table that copies one half into the other (shared cofactors)
+fn tt_expr(u: &mut Unstructured, n: usize, depth: usize) -> R<Tt> {
+    let tag = if depth == 0 { u.int_in_range(0u8..=3)? } else { u.int_in_range(0u8..=9)? };
+    Ok(match tag {
+        0 => tt(u, n)?,
+        1 => {
+            let w = u.arbitrary::<u64>()?;
+            Tt::from_words(n, vec![w; words_for(n)])
+        }
+        2 => {
+            if n == 0 {
+                Tt::from_fn(0, |_| true)
+            } else {
+                let i = idx(u, n)?;
+                Tt::from_fn(n, move |m| (m >> i) & 1 == 1)
+            }
+        }
+        3 => {
+            let b: bool = u.arbitrary()?;
+            Tt::from_fn(n, move |_| b)
+        }
+        4 => tt_expr(u, n, depth - 1)?.and(&tt_expr(u, n, depth - 1)?),
+        5 => tt_expr(u, n, depth - 1)?.or(&tt_expr(u, n, depth - 1)?),
+        6 => tt_expr(u, n, depth - 1)?.xor(&tt_expr(u, n, depth - 1)?),
+        7 => tt_expr(u, n, depth - 1)?.not(),
+        8 => {
+            // mux on a variable: s ? a : b
+            if n == 0 {
+                tt(u, n)?
+            } else {
+                let i = idx(u, n)?;
+                let a = tt_expr(u, n, depth - 1)?;
+                let b = tt_expr(u, n, depth - 1)?;
+                Tt::from_fn(n, move |m| if (m >> i) & 1 == 1 { a.get(m) } else { b.get(m) })
+            }
+        }
+        _ => {
+            // make the function independent of, or complementary in, one variable
+            if n == 0 {
+                tt(u, n)?
+            } else {
+                let i = idx(u, n)?;
+                let inv: bool = u.arbitrary()?;
+                let a = tt_expr(u, n, depth - 1)?;
+                Tt::from_fn(n, move |m| a.get(m & !(1 << i)) ^ (inv && (m >> i) & 1 == 1))
+            }
+        }
+    })
+}
+
+fn group(u: &mut Unstructured) -> R<crate::orbit::Group> {
+    Ok(match u.int_in_range(0u8..=2)? {
+        0 => crate::orbit::Group::P,
+        1 => crate::orbit::Group::N,
+        _ => crate::orbit::Group::Npn,
+    })
+}
+
+pub fn decode_transforms(data: &[u8]) -> Option<c03::Case> {
+    let mut u = Unstructured::new(data);
+    let r: R<c03::Case> = (|| {
+        let f = fam(&mut u)?;
+        let n = u.int_in_range(1usize..=9)?;
+        let k = u.int_in_range(1usize..=4)?;
+        let mut ix = Vec::new();
+        for _ in 0..k {
+            ix.push((idx(&mut u, n)?, idx(&mut u, n)?));
+        }
+        Ok(c03::Case { fam: f, f: tt_expr(&mut u, n, 2)?, c0: tt_expr(&mut u, n, 1)?, c1: tt_expr(&mut u, n, 1)?, idx: ix })
+    })();
+    r.ok()
+}
+
+pub fn decode_canon(data: &[u8]) -> Option<c04::Case> {
+    let mut u = Unstructured::new(data);
+    let r: R<c04::Case> = (|| {
+        let f = fam(&mut u)?;
+        let g = group(&mut u)?;
+        let n = u.int_in_range(0usize..=6)?;
+        Ok(c04::Case { fam: f, group: g, f: tt_expr(&mut u, n, 2)? })
+    })();
+    r.ok()
+}
+
+pub fn decode_decomp(data: &[u8]) -> Option<c06::Case> {
+    let mut u = Unstructured::new(data);
+    let r: R<c06::Case> = (|| {
+        let f = fam(&mut u)?;
+        let n = u.int_in_range(1usize..=9)?;
+        let planted = idx(&mut u, n)?;
+        Ok(c06::Case { fam: f, f: tt_expr(&mut u, n, 3)?, planted })
+    })();
+    r.ok()
+}
+
+pub fn decode_bdd(data: &[u8]) -> Option<c07::Case> {
+    let mut u = Unstructured::new(data);
+    let r: R<c07::Case> = (|| {
+        let f = fam(&mut u)?;
+        let n = u.int_in_range(0usize..=9)?;
+        let k = u.int_in_range(0usize..=4)?;
+        let rot = u.int_in_range(0usize..=3)?;
+        let dup = u.int_in_range(0usize..=3)?;
+        let neg: u8 = u.arbitrary()?;
+        let mut fs = Vec::new();
+        for _ in 0..k {
+            fs.push(tt_expr(&mut u, n, 3)?);
+        }
+        Ok(c07::Case { fam: f, n, fs, rot, dup, neg })
+    })();
+    r.ok()
+}
+
 /// (property, subcheck, case JSON, verdict) for a target name and input bytes
 pub fn judge(target: &str, data: &[u8]) -> Option<(&'static str, &'static str, serde_json::Value, Verdict)> {
     match target {
@@ -278,6 +393,14 @@ pub fn judge(target: &str, data: &[u8]) -> Option<(&'static str, &'static str, s
             let d = c16::Case { n: c.n, a: c16::Obj::Sop(c.e.clone()), b: c16::Obj::Sop(SB::Zero), ms: vec![0x1234_5678, 0xffff_0000, 0x0f0f_a5a5, 0x8000_0001] };
             ("C16", "display", serde_json::to_value(&d).unwrap(), c16::run(&d))
         }),
+        "transforms" => decode_transforms(data).map(|c| ("C03", "transforms", serde_json::to_value(&c).unwrap(), c03::run(&c))),
+        "canon" => decode_canon(data).map(|c| ("C04", "orbit", serde_json::to_value(&c).unwrap(), c04::run_orbit(&c))),
+        "witness" => decode_canon(data).map(|c| {
+            let d = c05::Case { fam: c.fam, group: c.group, f: c.f.clone() };
+            ("C05", "witness", serde_json::to_value(&d).unwrap(), c05::run(&d))
+        }),
+        "decomp" => decode_decomp(data).map(|c| ("C06", "classify", serde_json::to_value(&c).unwrap(), c06::run(&c))),
+        "bdd" => decode_bdd(data).map(|c| ("C07", "count", serde_json::to_value(&c).unwrap(), c07::run(&c))),
         _ => None,
     }
 }
